@@ -10,7 +10,11 @@
    kind 2  BufWriter model against a scripted short-writing inner writer:
              (2 cap (resp ...) (op ...))  resp: (0 k) accept k | (1) error
              op: (0 d) write_all | (1 d) write | (2) flush
-           result: ((res inner buffered) ...) res: (1) ok | (0) err | (1 n) for write *)
+           result: ((res inner buffered) ...) res: (1) ok | (0) err | (1 n) for write
+   kind 3  several O_APPEND writers on one path:
+             (3 pre (op ...))  op: (0 h (chunk ...)) append through appender h | (1 d) external
+             append of d | (2 h) build appender h in append mode (dropping a previous one in slot h)
+           result: (disk ...) one snapshot per op *)
 From L4 Require Import Common.Val Common.Sched Model.BufW Model.FileApp.
 Local Open Scope N_scope.
 
@@ -81,6 +85,20 @@ Fixpoint bw_run (c : nat) (st : fstate) (ops : list bop) : list vl :=
     VL [code; VS (disk st'); VS (buf st')] :: bw_run c st' r
   end.
 
+Definition dec_hop (v : vl) : option hop :=
+  match v with
+  | VL [VN 0; VN h; cs] => match dec_chunks cs with Some l => Some (HAppend (N.to_nat h) l) | None => None end
+  | VL [VN 1; VS d] => Some (HExternal d)
+  | VL [VN _; VN h] => Some (HBuild (N.to_nat h))
+  | _ => None
+  end.
+
+Fixpoint hop_run (m : mstate) (ops : list hop) : list vl :=
+  match ops with
+  | [] => []
+  | op :: r => let m' := hop_step cap m op in VS (mdisk m') :: hop_run m' r
+  end.
+
 Definition c04_run (v : vl) : vl :=
   match v with
   | VL [VN 0; VN enc; VN a; pre; ops] =>
@@ -103,6 +121,12 @@ Definition c04_run (v : vl) : vl :=
         end
       | None => VBad
       end
+    | _, _ => VBad
+    end
+  | VL [VN 3; pre; ops] =>
+    match dec_pre pre, val_list dec_hop ops with
+    | Some p, Some l =>
+      VL (hop_run (mkM (match p with Some b => b | None => [] end) (fun _ => []) []) l)
     | _, _ => VBad
     end
   | VL [VN 2; VN c; o; ops] =>
